@@ -54,14 +54,21 @@ def model_undecodable(env, junk):
     """{(kind, bytes): the model's mode of that kind produces a diagnostic for a directory holding just this file}"""
     modes = {'summary': 'list', 'full': 'all', 'headers': 'count'}
     reqs, keys = [env.tokens()], []
+    for kind, mode in modes.items():
+        reqs.append(clirun.model_req(mode, [], {'every': 1}))          # what the mode prints for a directory without files
+        keys.append((kind, None))
     for _, b in junk:
         for kind, mode in modes.items():
             reqs.append(clirun.model_req(mode, [('f', b)], {'every': 1}))
             keys.append((kind, b))
-    out = {}
+    out, empty = {}, {}
     for k, r in zip(keys, lean_batch(reqs)[1:]):
-        r.text()
-        out[k] = r.num() >= 1
+        text = r.text()
+        if k[1] is None:
+            empty[k[0]] = text
+        else:
+            # undecodable for the mode = the model shows nothing for it (a diagnostic line, or only the "Failed to parse …" note of a header)
+            out[k] = r.num() >= 1 or text == empty[k[0]]
     return out
 
 
